@@ -32,6 +32,8 @@ U = {
     "B": "http://b/",
     "AB": "http://a/b/",
     "C": "http://c/",
+    # a namespace that continues after the last '/' of its URI (it lies below A without being a path below it)
+    "AQ": "http://a/rec?id=",
     "P": "http://www.w3.org/ns/prov#",
     "X": "http://www.w3.org/2001/XMLSchema#",
     "XI": "http://www.w3.org/2001/XMLSchema-instance",
@@ -355,6 +357,7 @@ class State(object):
         self.ref = RefState()
         self.nscache = {}
         self.hist = ()
+        self.ever_read = False  # a reading operation ("read") is part of the history
 
     def container(self, scope):
         return self.doc if scope == "D" else self.bundles[scope]
@@ -563,6 +566,23 @@ def apply(st, op, values=None):
         else:
             rec.set_time(endTime=TIMES[tkey])
         _conform(rec, model.sc[scope].records[idx])
+    elif kind == "read":
+        # reading operations in the middle of a history (every accessor of every record, the flattened attribute
+        # lists, hashing, comparing, unifying): no effect on the content, but part of the history
+        if st.ever_read:
+            raise NotEnabled("already-read")
+        observe.touch(st.doc)
+        for c in [st.doc] + list(st.doc.bundles):
+            for r in c.get_records():
+                r.attributes
+                hash(r)
+                r == r
+        try:
+            st.doc.unified()
+        except Exception:
+            pass
+        st.doc == st.doc
+        st.ever_read = True
     elif kind == "get":
         # a lookup: no effect on the content, but it is a call into the container's indexes
         _, scope, name = op
@@ -738,6 +758,7 @@ def canon(st):
              tuple(sorted((u, str(p_)) for u, p_ in sc.primary.items())))
             for s, sc in ref.sc.items())))
         key.append(tuple(sorted(ref.default_touched.items())))
+        key.append(st.ever_read)
         return repr(key)
     except AttributeError:
         # internal layout changed: fall back to the history itself (no merging, still sound)
@@ -802,6 +823,9 @@ def render(alphabet, hist, values=None):
             lines.append("r.set_time(%s=%r)" % ("startTime" if op[1] == "start" else "endTime", TIMES[op[2]]))
         elif k in ("get", "getx"):
             lines.append("c[%r].get_record(%s)" % (op[1], sp(op[2])))
+        elif k == "read":
+            lines.append("[(x.attributes, x.args, hash(x), x == x) for cc in [d] + list(d.bundles) for x in cc.get_records()]; d == d")
+            lines.append("try: d.unified()\nexcept Exception: pass")
         elif k == "addb":
             lines.append("from prov.model import ProvBundle; c[%r] = ProvBundle(identifier=%s); d.add_bundle(c[%r])" % (
                 op[1], sp(op[2]), op[1]))
